@@ -394,7 +394,8 @@ def failKey (kind : String) (why : String) : String :=
     else if kind == "num" then (if why == "accepted" then "number-out-of-range-accepted" else "valid-config")
     else if kind == "cons" then (if why == "accepted" then "constraint-accepted" else "valid-config")
     else if kind == "oor" || kind == "doc" || (kind == "typeonly" && why == "accepted") then "constraint-accepted"
-    else if kind == "ph-unset" || kind == "ph-noprop" || kind == "ph-nofile" then "placeholder-missing-accepted"
+    else if kind == "ph-unset" || kind == "ph-noprop" || kind == "ph-nofile" || (kind == "ph-twin" && why == "accepted") then
+      "placeholder-missing-accepted"
     else if kind == "null" || kind == "base" || kind == "docdefault" then "default-lost"
     else if kind == "dockey" then "documented-option"
     else if kind.startsWith "ph-" then "placeholder-cast"
